@@ -26,7 +26,7 @@ from . import common
 
 SPEC = {
     "lean": ["SnowModel.Props.C15", "SnowModel.Props.C15Bridge"],
-    "pins": ["Schedule", "Memorable", "MemoState", "DateParse"],
+    "pins": ["Schedule", "Memorable", "MemoState", "DateParse", "CallSite", "MacroParse"],
     "harness": "harness.c15",
     "technique": "Lean 4 theorems over a declarative RFC 5545 subset (calendar round trips, sorted/sound/complete occurrence enumeration, rruleset algebra, keyword wiring) + pins of the keyword wiring regenerated from the AST + three-way differential (plugin / Lean model / dateutil built directly from the keywords)",
     "level_text": "Machine-checked proofs about the model of the recurrence (proleptic Gregorian calendar round trips; occurrences strictly increasing, sound and complete w.r.t. the declarative `occursDay`/time-set predicate for every rule and bound; count = prefix; include/exclude = sorted de-duplicated set algebra; every keyword reaches the same-named rrule argument, normalised from the same-named parameter), tied to Schedule.py by a pinned wiring table with bridging lemmas and by differential runs of CalendarRule and end-to-end recipes against the model and against an independent dateutil construction.",
@@ -64,7 +64,7 @@ def abs_of(dt):
 def canon_val(v):
     if isinstance(v, _dt.datetime):
         a, o = abs_of(v)
-        return ["dt", a, o]
+        return ["dt", a, o, v.microsecond]
     if isinstance(v, _dt.date):
         return ["d", v.toordinal()]
     return ["other", repr(v)]
@@ -87,7 +87,7 @@ def arg_date(a):
 def arg_naive(a):
     y, m, d = a["ymd"]
     h, mi, s = a.get("hms") or [0, 0, 0]
-    return _dt.datetime(y, m, d, h, mi, s)
+    return _dt.datetime(y, m, d, h, mi, s, a.get("us") or 0)
 
 
 def iso_of(a, sep="T"):
@@ -96,6 +96,8 @@ def iso_of(a, sep="T"):
         return f"{y:04d}-{m:02d}-{d:02d}"
     h, mi, s = a.get("hms") or [0, 0, 0]
     out = f"{y:04d}-{m:02d}-{d:02d}{sep}{h:02d}:{mi:02d}:{s:02d}"
+    if a.get("us"):
+        out += f".{a['us']:06d}"
     off = a.get("off")
     if off is not None:
         sign = "+" if off >= 0 else "-"
@@ -345,16 +347,21 @@ def build_direct(s, variant=frozenset()):
     repaired defects, kept as regression probes so that a relapse is reported under its recorded
     signature: 'weekno' (byweekno := bysecond; D13), 'utc' (date-valued until/include/exclude at UTC,
     datetime-string until re-labelled UTC; D21), 'untiltime' (datetime-object until keeps only its
-    date; D35)."""
+    date; D35); and of the open one: 'frac' (date-valued include / exclude keep the microseconds of
+    a fractional start; D53)."""
     from dateutil import rrule as R
 
     p = s["p"]
+    if p.get("byweekno"):
+        raise GatedError()
     st = start_aware(p["start"])
     kw = {"freq": getattr(R, p["freq"]), "dtstart": st, "wkst": R.SU}
     if p.get("interval") is not None:
         if isinstance(p["interval"], bool) or not isinstance(p["interval"], int) or p["interval"] < 1:
             raise ValueError("an interval below 1 describes no recurrence")
         kw["interval"] = p["interval"]
+    if p["freq"] in SPAN_SECS and is_date_precision(p["start"]):
+        raise ValueError("a sub-daily frequency needs a datetime start")
     if p.get("count") is not None:
         kw["count"] = p["count"]
     u = p.get("until")
@@ -372,8 +379,6 @@ def build_direct(s, variant=frozenset()):
     for k in INT_KEYS:
         if p.get(k) is not None:
             kw[k] = list(p[k])
-    if p.get("byweekno"):
-        raise GatedError()
     if "weekno" in variant:
         kw["byweekno"] = list(p["bysecond"]) if p.get("bysecond") is not None else None
     if p.get("byweekday") is not None:
@@ -387,7 +392,10 @@ def build_direct(s, variant=frozenset()):
             elif it["k"] == "dtobj":
                 add_date(arg_naive(it).replace(tzinfo=tz_of(it.get("off"))))
             else:  # a date (object or string; a datetime string is read as its date)
-                t = _dt.datetime.combine(arg_date(it), st.timetz().replace(tzinfo=None))
+                # "that date's occurrence": the start's time of day as the rule emits it (rrule drops
+                # the microseconds of dtstart); variant 'frac' keeps them (D53)
+                tod = st.timetz().replace(tzinfo=None) if "frac" in variant else st.timetz().replace(tzinfo=None, microsecond=0)
+                t = _dt.datetime.combine(arg_date(it), tod)
                 add_date(t.replace(tzinfo=_dt.timezone.utc if "utc" in variant else st.tzinfo))
     return rs
 
@@ -401,8 +409,6 @@ def run_direct(case, horizon, cap, variant=frozenset()):
     try:
         rs = build_direct(case["set"], variant)
         datep = is_date_precision(case["set"]["p"]["start"]) and case["mode"] == "next"
-        if case["set"]["p"]["freq"] in SPAN_SECS and is_date_precision(case["set"]["p"]["start"]):
-            return {"outcome": "error", "out": [], "error": "sub-daily frequency needs a datetime start"}
         for v in rs:
             if abs_of(v)[0] > horizon:
                 return {"outcome": "ok", "out": out, "capped": False}
@@ -428,7 +434,7 @@ def model_arg(a):
         return {"k": "date", "ord": o}
     h, mi, s = a.get("hms") or [0, 0, 0]
     off = a.get("off")
-    return {"k": a["k"], "ord": o, "sod": h * 3600 + mi * 60 + s, "off": None if off is None else off * 60}
+    return {"k": a["k"], "ord": o, "sod": h * 3600 + mi * 60 + s, "us": a.get("us") or 0, "off": None if off is None else off * 60}
 
 
 def model_set(s):
@@ -439,6 +445,7 @@ def model_set(s):
         "freq": p["freq"],
         "sord": st.toordinal(),
         "ssod": st.hour * 3600 + st.minute * 60 + st.second,
+        "sus": st.microsecond,
         "off": off,
         "dprec": is_date_precision(p["start"]),
         "interval": 1 if p.get("interval") is None else p["interval"],
@@ -487,6 +494,8 @@ def quirks_present(s):
                 q |= quirks_present(it["set"])
             elif it["k"] != "dtobj":
                 q.add("utc")
+                if p["start"].get("us"):
+                    q.add("frac")
     return q
 
 
@@ -505,6 +514,7 @@ SIG = {
     "weekno": "C15:bysecond-feeds-byweekno",
     "utc": "C15:date-args-forced-to-utc",
     "untiltime": "C15:until-datetime-loses-time",
+    "frac": "C15:fractional-start-date-args",
 }
 
 
@@ -519,21 +529,37 @@ def cut(r, horizon):
     return {"outcome": "ok", "out": vals, "capped": capped}
 
 
-def same(a, b, horizon):
-    """equality of two evaluation results on what both observed; None = inconclusive"""
+ERROR_KINDS = [
+    ("gated", ("undocumented", "gated")),
+    ("badInterval", ("positive integer", "interval below 1", "badInterval")),
+    ("needsDatetime", ("should be a datetime", "needs a datetime start", "needsDatetime")),
+    ("emptyRule", ("generates an empty set", "Invalid combination", "empty rule", "emptyRule")),
+    ("badTime", ("must be in 0..", "badTime")),
+    ("naive", ("offset-naive",)),
+]
+
+
+def error_kind(r):
+    """which of the modelled rejections an error outcome is (by its message)"""
+    msg = r.get("error") or ""
+    for kind, needles in ERROR_KINDS:
+        if any(n in msg for n in needles):
+            return kind
+    return "other:" + msg[:80]
+
+
+def same(a, b, horizon, kinds=False):
+    """equality of two evaluation results on what both observed; None = inconclusive.
+    `kinds`: two errors only agree when they are the same kind of rejection."""
     if a["outcome"] == "timeout" or b["outcome"] == "timeout":
         return None
     ea, eb = a["outcome"] == "error", b["outcome"] == "error"
     if ea and eb:
-        return True
+        ka, kb = error_kind(a), error_kind(b)
+        if not kinds or ka.startswith("other:") or kb.startswith("other:"):
+            return True  # errors outside the modelled rejections are not told apart
+        return ka == kb
     if ea or eb:
-        err, other = (a, b) if ea else (b, a)
-        # dateutil raises "Invalid combination of interval and by..." lazily, after the reachable
-        # values: the declarative reading is "no further value"
-        if "Invalid combination" in (err.get("error") or ""):
-            o = cut(other, horizon)
-            e = cut(dict(err, outcome="ok", capped=False), horizon)
-            return (not o["capped"]) and o["out"] == e["out"]
         return False
     a, b = cut(a, horizon), cut(b, horizon)
     xa, xb = a["out"], b["out"]
@@ -573,6 +599,12 @@ def accepts_bad_interval(case):
     return False
 
 
+def is_flat(s):
+    """no nested schedule: a single place an error can come from, so error kinds are comparable
+    (with nested events the plugin builds the inner rule first, the model checks the outer first)"""
+    return not any(it["k"] == "set" for key in ("include", "exclude") for it in (s.get(key) or []))
+
+
 def evaluate_case(case):
     """Runs in a worker process: the plugin, the direct construction, and the classification."""
     signal.signal(signal.SIGALRM, _alarm)
@@ -608,7 +640,7 @@ def evaluate_case(case):
         real["capped"] = True
     res["real"] = real
     res["direct"] = direct
-    eq = same(real, direct, horizon)
+    eq = same(real, direct, horizon, kinds=is_flat(case["set"]))
     res["oracle"] = "inconclusive" if eq is None else ("pass" if eq else "fail")
     res["sigs"] = []
     if eq is False:
@@ -639,6 +671,8 @@ def evaluate_case(case):
 
 def _worker(case):
     try:
+        if case.get("kind") == "sites":
+            return evaluate_sites(case)
         return evaluate_case(case)
     except Exception as e:  # noqa  (a crash of the harness itself must be visible)
         import traceback
@@ -683,10 +717,16 @@ def blur_ties(r, ties):
     the model does not predict which, so the offset of such a value is not compared"""
     if not ties or r["outcome"] not in ("ok", "exhausted"):
         return r
-    return dict(r, out=[["dt", v[1], "*"] if v[0] == "dt" and v[1] in ties else v for v in r["out"]])
+    return dict(r, out=[["dt", v[1], "*", v[3]] if v[0] == "dt" and v[1] in ties else v for v in r["out"]])
 
 
 def check_cases(cases, rep):
+    sites = [c for c in cases if c.get("kind") == "sites"]
+    if sites:
+        check_site_cases(sites, rep)
+        cases = [c for c in cases if c.get("kind") != "sites"]
+        if not cases:
+            return
     results = evaluate_all(cases)
     reqs = []
     for case, res in zip(cases, results):
@@ -714,6 +754,8 @@ def check_cases(cases, rep):
                         rep.count("formula:same-keyword-names")
         rep.count("freq:" + p["freq"])
         rep.count("real:" + real["outcome"])
+        if real["outcome"] == "error":
+            rep.count("real-error-kind:" + error_kind(real).split(":")[0])
         rep.count("oracle:" + res["oracle"])
         for k in INT_KEYS + ["byweekday", "until", "count"]:
             if p.get(k) is not None:
@@ -746,7 +788,7 @@ def check_cases(cases, rep):
             rep.count("model:outside-fragment")
         if v1.get("outcome") != "outside":
             ties = set(v1.get("ties") or [])
-            eq = same(blur_ties(real, ties), blur_ties(m_plugin, ties), res["horizon"])
+            eq = same(blur_ties(real, ties), blur_ties(m_plugin, ties), res["horizon"], kinds=is_flat(case["set"]))
             if eq is False and ties and via_next and is_date_precision(p["start"]):
                 eq = None  # the date of a tied instant depends on which zone was emitted
             if eq is None:
@@ -757,7 +799,7 @@ def check_cases(cases, rep):
                     rep.disagreement("c15.eval(plugin) vs CalendarRule", case, summary(m_plugin), summary(real))
         if v2.get("outcome") != "outside":
             ties = set(v2.get("ties") or [])
-            eq = same(blur_ties(direct, ties), blur_ties(m_int, ties), res["horizon"])
+            eq = same(blur_ties(direct, ties), blur_ties(m_int, ties), res["horizon"], kinds=is_flat(case["set"]))
             if eq is False and ties and via_next and is_date_precision(p["start"]):
                 eq = None
             if eq is None:
@@ -781,7 +823,8 @@ def show(v):
         d = _dt.date.fromordinal(loc // 86400)
         t = loc % 86400
         sign = "+" if off >= 0 else "-"
-        return f"{d.isoformat()}T{t//3600:02d}:{t%3600//60:02d}:{t%60:02d}{sign}{abs(off)//3600:02d}:{abs(off)%3600//60:02d}"
+        frac = f".{v[3]:06d}" if len(v) > 3 and v[3] else ""
+        return f"{d.isoformat()}T{t//3600:02d}:{t%3600//60:02d}:{t%60:02d}{frac}{sign}{abs(off)//3600:02d}:{abs(off)%3600//60:02d}"
     return str(v)
 
 
@@ -792,6 +835,273 @@ def describe(sig, case, real, direct):
         f"{sig}: Schedule.Event({json.dumps(case['set'], default=str)[:400]}) gives {real['outcome']} {r} "
         f"but the recurrence described by its keywords is {direct['outcome']} {d}"
     )
+
+
+
+# ------------------------------------------------------------------ call sites (one Event text, several places)
+
+
+def flow_event(s):
+    """`{Schedule.Event: {freq: daily, start_date: "2024-03-01", ...}}` on one line (flat sets)"""
+    p = s["p"]
+    parts = [f"freq: {p['freq'].lower() if p.get('freq_lower') else p['freq']}", f"start_date: {yaml_scalar(p['start'])}"]
+    for k in ("interval", "count"):
+        if p.get(k) is not None:
+            parts.append(f"{k}: {p[k]}")
+    if p.get("until") is not None:
+        parts.append(f"until: {yaml_scalar(p['until'])}")
+    for k in INT_KEYS:
+        if p.get(k) is not None:
+            v = int_value(p[k], p.get("lf", 1), for_yaml=True)
+            parts.append(f"{k}: {v if isinstance(v, int) else json.dumps(v)}")
+    if p.get("byweekday") is not None:
+        parts.append(f"byweekday: {json.dumps(wd_string(p['byweekday']))}")
+    for key in ("include", "exclude"):
+        items = s.get(key) or []
+        if len(items) == 1 and items[0]["k"] != "set":
+            parts.append(f"{key}: {yaml_scalar(items[0])}")
+        elif items:
+            raise ValueError("flow events are flat")
+    return "{Schedule.Event: {" + ", ".join(parts) + "}}"
+
+
+def sites_recipe(case):
+    """-> (recipe text, files, consumers) ; consumers = [(table, field, 'next' | 'for_each')]"""
+    lay = case["layout"]
+    s = case["set"]
+    head = ["- snowfakery_version: 3", "- plugin: snowfakery.standard_plugins.Schedule"]
+    body, files, consumers = [], None, []
+    if "macro" in lay:
+        m = lay["macro"]
+        macro = ["- macro: sched", "  fields:", "    t:"] + yaml_event(s, 6)
+        if m.get("in_file"):
+            files = {"inc.yml": "\n".join(["- plugin: snowfakery.standard_plugins.Schedule"] + macro) + "\n"}
+            head.append("- include_file: inc.yml")
+        else:
+            body += macro
+        body += ["- object: A", f"  count: {m['a']}", "  include: sched"]
+        consumers.append(("A", "t", "next"))
+        body += ["- object: B", f"  count: {m['b']}", "  include: sched"]
+        consumers.append(("B", "t", "next"))
+        if m.get("c"):
+            body += ["  friends:", "    - object: C", f"      count: {m['c']}", "      include: sched"]
+            consumers.append(("C", "t", "next"))
+        if m.get("d"):
+            # a third consumer that nests the including template as a field value
+            body += ["- object: D", f"  count: {m['d']}", "  fields:", "    child:", "      - object: Dchild", "        include: sched"]
+            consumers.append(("Dchild", "t", "next"))
+    if "flow" in lay:
+        f = lay["flow"]
+        body += ["- object: F", f"  count: {f['n']}", "  fields:", f"    x: {flow_event(s)}", f"    y: {flow_event(s)}"]
+        consumers += [("F", "x", "next"), ("F", "y", "next")]
+        if f.get("again"):
+            body += ["- object: G", f"  count: {f['again']}", "  fields:", f"    x: {flow_event(s)}"]
+            consumers.append(("G", "x", "next"))
+    if "foreach" in lay:
+        body += ["- object: H", "  for_each:", "    var: ev", "    value:"] + yaml_event(s, 6)
+        body += ["  fields:", "    t: ${{ev}}", "    u:"] + yaml_event(s, 6)
+        consumers += [("H", "t", "for_each"), ("H", "u", "next")]
+    return "\n".join(head + body) + "\n", files, consumers
+
+
+def rows_needed(case):
+    """the largest number of values any field call site of the recipe asks for"""
+    lay = case["layout"]
+    need = []
+    if "macro" in lay:
+        m = lay["macro"]
+        need += [m["a"], m["b"], m["b"] * (m.get("c") or 0), m.get("d") or 0]
+    if "flow" in lay:
+        need += [lay["flow"]["n"], lay["flow"].get("again") or 0]
+    if "foreach" in lay:
+        need.append(1)
+    return max(need)
+
+
+def evaluate_sites(case):
+    """Worker: run the recipe, split the rows per call site, build the expected sequences."""
+    signal.signal(signal.SIGALRM, _alarm)
+    horizon = horizon_of(case)
+    text, files, consumers = sites_recipe(case)
+    res = {"horizon": horizon, "consumers": consumers, "sigs": []}
+    signal.alarm(case.get("timeout", 5))
+    try:
+        r = common.run_recipe(text, reps=1, files=files)
+        timed_out = False
+        e, hops = r.exc, 0
+        while e is not None and hops < 10:
+            if isinstance(e, Timeout):
+                timed_out = True
+            e, hops = (e.__cause__ or e.__context__), hops + 1
+    except Timeout:
+        r, timed_out = None, True
+    finally:
+        signal.alarm(0)
+    if timed_out or r is None:
+        res["real"] = {"outcome": "timeout"}
+        res["oracle"] = "inconclusive"
+        return res
+    seqs = {}
+    for table, fields in r.rows:
+        for k, v in fields:
+            if k != "id" and not (isinstance(v, dict) and v.get("t") == "ref"):
+                seqs.setdefault(f"{table}.{k}", []).append(canon_row_value(v))
+    res["real"] = {"outcome": "ok" if r.outcome == "ok" else "error", "error": r.error, "seqs": seqs}
+    exp = {}
+    for mode in ("next", "for_each"):
+        signal.alarm(case.get("timeout", 5))
+        try:
+            exp[mode] = run_direct(dict(case, mode=mode), horizon, CAP)
+        except Timeout:
+            exp[mode] = {"outcome": "timeout", "out": []}
+        finally:
+            signal.alarm(0)
+    res["direct"] = exp
+    verdicts = []
+    res["real"]["exhausted"] = bool(r.error and "Could not generate enough values" in r.error)
+    if r.outcome != "ok":
+        # the whole recipe failed: legitimate only if the recurrence itself is rejected, or if it
+        # really has fewer values than some call site asks for
+        d = exp["next"]
+        if d["outcome"] == "timeout":
+            verdicts.append(None)
+        elif res["real"]["exhausted"]:
+            verdicts.append(d["outcome"] == "ok" and not d.get("capped") and len(cut(d, horizon)["out"]) < rows_needed(case))
+        else:
+            verdicts.append(d["outcome"] == "error")
+    else:
+        n_foreach = None
+        for table, field, mode in consumers:
+            got = {"outcome": "ok", "out": seqs.get(f"{table}.{field}", []), "capped": mode == "next"}
+            verdicts.append(same(got, exp[mode], horizon))
+    if any(v is False for v in verdicts):
+        res["oracle"] = "fail"
+        res["sigs"] = ["C15:call-site-sequence-differs"]
+    elif any(v is None for v in verdicts):
+        res["oracle"] = "inconclusive"
+    else:
+        res["oracle"] = "pass"
+    return res
+
+
+def check_site_cases(cases, rep):
+    results = evaluate_all(cases)
+    reqs = []
+    for case, res in zip(cases, results):
+        if "crash" in res:
+            raise RuntimeError("harness worker crashed: " + res["crash"])
+        ms = model_set(case["set"])
+        for via_next in (True, False):
+            reqs.append({"m": "c15.eval", "horizon": res["horizon"], "viaNext": via_next, "set": ms})
+    mres = common.model_batch(reqs)
+    for i, (case, res) in enumerate(zip(cases, results)):
+        real = res["real"]
+        rows = sum(len(v) for v in (real.get("seqs") or {}).values())
+        rep.case(case, nontrivial=real["outcome"] == "ok" and rows >= 4)
+        rep.count("kind:sites:" + "+".join(sorted(case["layout"])))
+        rep.count("freq:" + case["set"]["p"]["freq"])
+        rep.count("real:" + real["outcome"])
+        rep.count("oracle:" + res["oracle"])
+        rep.count("values", rows)
+        rep.count("call-sites", len(res["consumers"]))
+        for sig in res["sigs"]:
+            text, files, _ = sites_recipe(case)
+            got = {k: [show(v) for v in vs[:6]] for k, vs in (real.get("seqs") or {}).items()}
+            want = [show(v) for v in res["direct"]["next"]["out"][:6]]
+            rep.violation(
+                sig,
+                f"{sig}: every place a Schedule.Event is written must produce, row by row, the occurrences of its own "
+                f"recurrence from start_date ({want} ...), but the call sites of this recipe produced {got} "
+                f"({real.get('error') or 'no error'})\n{text}" + (f"\n# inc.yml\n{files['inc.yml']}" if files else ""),
+                case,
+                expected={"each call site": want},
+                observed={"outcome": real["outcome"], "error": real.get("error"), "per call site": got},
+            )
+        if real["outcome"] == "timeout":
+            rep.count("model-vs-code:inconclusive")
+            continue
+        for j, mode in enumerate(("next", "for_each")):
+            st, v = mres[2 * i + j]
+            if st != "ok":
+                rep.disagreement("c15.eval:driver-error", case, v, None)
+                continue
+            if v.get("outcome") == "outside":
+                rep.count("model:outside-fragment")
+                continue
+            m = model_out(v)
+            if real["outcome"] != "ok":
+                if j == 0:
+                    rep.traces_validated += 1
+                    agrees = (m["outcome"] == "ok" and len(cut(m, res["horizon"])["out"]) < rows_needed(case)) if real.get("exhausted") else m["outcome"] == "error"
+                    if not agrees:
+                        rep.disagreement("c15.eval(plugin) vs recipe with several call sites", case, summary(m), {"outcome": "error", "error": real.get("error")})
+                continue
+            for table, field, cmode in res["consumers"]:
+                if cmode != mode:
+                    continue
+                got = {"outcome": "ok", "out": real["seqs"].get(f"{table}.{field}", []), "capped": cmode == "next"}
+                eq = same(got, m, res["horizon"])
+                if eq is None:
+                    rep.count("model-vs-code:inconclusive")
+                    continue
+                rep.traces_validated += 1
+                if not eq:
+                    rep.disagreement(f"c15.eval(plugin) vs call site {table}.{field}", case, summary(m), summary(got))
+
+
+def gen_sites_case(rng):
+    """one Event text written at several call sites"""
+    lay_names = rng.choice([["macro"], ["macro"], ["macro", "flow"], ["flow"], ["foreach"], ["foreach", "flow"]])
+    flat = "flow" in lay_names
+    s = gen_set(rng, clean=True, single=True, sub_ok=rng.random() < 0.3)
+    if flat:
+        for key in ("include", "exclude"):
+            if s.get(key) and s[key][0]["k"] == "set":
+                del s[key]
+        if s["p"]["start"]["k"] in ("date", "dtobj"):
+            s["p"]["start"]["k"] = {"date": "datestr", "dtobj": "dtstr"}[s["p"]["start"]["k"]]
+        for key in ("include", "exclude"):
+            for it in s.get(key) or []:
+                if it["k"] in ("date", "dtobj"):
+                    it["k"] = {"date": "datestr", "dtobj": "dtstr"}[it["k"]]
+        u = s["p"].get("until")
+        if u and u["k"] in ("date", "dtobj"):
+            u["k"] = {"date": "datestr", "dtobj": "dtstr"}[u["k"]]
+    def whole_seconds(x):  # call-site cases stay clear of the open finding D53
+        x["p"]["start"].pop("us", None)
+        for key in ("include", "exclude"):
+            for it in x.get(key) or []:
+                if it["k"] == "set":
+                    whole_seconds(it["set"])
+
+    whole_seconds(s)
+    s["p"]["lf"] = rng.choice([0, 1])
+    s["p"].pop("byweekno", None)
+    if s["p"].get("interval") is not None and s["p"]["interval"] < 1:
+        s["p"]["interval"] = 2
+    fix_lf(s)
+    s["p"].pop("until", None)
+    s["p"].pop("count", None)
+    lay = {}
+    if "foreach" in lay_names:
+        c = rng.choice([2, 3, 5, 8])
+        s["p"]["count"] = c
+        lay["foreach"] = {}
+        if "flow" in lay_names:
+            lay["flow"] = {"n": rng.randint(1, c)}
+    else:
+        if "macro" in lay_names:
+            m = {"a": rng.randint(1, 5), "b": rng.randint(1, 4), "in_file": rng.random() < 0.3}
+            if rng.random() < 0.5:
+                m["c"] = rng.randint(1, 3)
+            if rng.random() < 0.35:
+                m["d"] = rng.randint(1, 4)
+            lay["macro"] = m
+        if "flow" in lay_names:
+            lay["flow"] = {"n": rng.randint(1, 6)}
+            if rng.random() < 0.4:
+                lay["flow"]["again"] = rng.randint(1, 4)
+    return {"kind": "sites", "mode": "next", "layout": lay, "set": s}
 
 
 # ------------------------------------------------------------------ generators
@@ -822,7 +1132,10 @@ def rnd_start(rng, want_dt=None, utc_bias=0.7):
         return {"k": rng.choice(["date", "datestr"]), "ymd": [d.year, d.month, d.day]}
     hms = [rng.choice([0, 0, 9, 10, 12, 23, rng.randrange(24)]), rng.choice([0, 0, 30, 59, rng.randrange(60)]), rng.choice([0, 0, 0, 7, 59])]
     off = None if rng.random() < 0.3 else (0 if rng.random() < utc_bias else rng.choice([300, -300, 330, 480, -480, 60, -720, 765, 840]))
-    return {"k": rng.choice(["dtobj", "dtstr"]), "ymd": [d.year, d.month, d.day], "hms": hms, "off": off}
+    st = {"k": rng.choice(["dtobj", "dtstr"]), "ymd": [d.year, d.month, d.day], "hms": hms, "off": off}
+    if rng.random() < 0.08:
+        st["us"] = rng.choice([990000, 990000, 500000, 1, 999999])  # e.g. the documented `23:59:59.99`
+    return st
 
 
 def some(rng, pool, kmax):
@@ -1058,6 +1371,32 @@ def gen_formula_case(rng):
     return {"kind": "recipe", "mode": mode, "n": rng.choice([3, 5, 8, 13]), "formula": rng.choice(["inline", "inline", "var"]), "set": s}
 
 
+def gen_lattice_case(rng):
+    """sub-daily rules whose interval lattice may never meet the by-sets: dateutil rejects them
+    (in the constructor at the frequency's own level, at the first step above it), taking the
+    values of an enclosing schedule with them"""
+    freq = rng.choice(["MINUTELY", "MINUTELY", "SECONDLY", "HOURLY"])
+    st = rnd_start(rng, want_dt=True, utc_bias=0.8)
+    p = {"freq": freq, "start": st, "lf": rng.choice([0, 1, 2])}
+    p["interval"] = rng.choice({"MINUTELY": [90, 90, 120, 45, 360, 720, 1440, 60, 30, 7, 100],
+                                "SECONDLY": [3600, 90, 7200, 86400, 60, 45, 1800, 43200],
+                                "HOURLY": [2, 3, 4, 6, 8, 12, 24, 5]}[freq])
+    if rng.random() < 0.85:
+        p["byhour"] = some(rng, list(range(24)), 2)
+    if freq != "HOURLY" and rng.random() < 0.45:
+        p["byminute"] = some(rng, [0, 15, 30, 45, st["hms"][1]], 2)
+    if freq == "SECONDLY" and rng.random() < 0.3:
+        p["bysecond"] = some(rng, [0, 30, st["hms"][2]], 2)
+    if rng.random() < 0.3:
+        p["count"] = rng.choice([1, 3, 10])
+    s = {"p": p}
+    if rng.random() < 0.4:
+        s["include"] = [rnd_arg_near(rng, p) for _ in range(rng.choice([1, 2]))]
+    if rng.random() < 0.15:
+        s["exclude"] = [rnd_arg_near(rng, p)]
+    return {"kind": "rule", "mode": rng.choice(["next", "for_each"]), "set": s, "horizon": abs_of(start_aware(st))[0] + 86400 * 3}
+
+
 def doc_cases():
     """the documentation examples moved to other weeks of the year, plus the known-defect witnesses"""
     out = []
@@ -1077,6 +1416,10 @@ def doc_cases():
         out.append({"kind": "recipe", "mode": "next", "n": 10, "set": ev("MINUTELY", dt, byminute=[1, 2, 3])})
         out.append({"kind": "recipe", "mode": "next", "n": 10, "set": ev("SECONDLY", dt, bysecond=[1, 2, 3])})
         out.append({"kind": "recipe", "mode": "next", "n": 5, "set": ev("WEEKLY", da, interval=3)})
+    # one Event in a macro used by three templates, twice on one line, and under a for_each
+    e0 = {"p": {"freq": "WEEKLY", "start": {"k": "datestr", "ymd": [2024, 3, 1]}, "lf": 1}}
+    out.append({"kind": "sites", "mode": "next", "layout": {"macro": {"a": 2, "b": 3, "c": 2, "d": 2, "in_file": True}, "flow": {"n": 2, "again": 3}}, "set": e0})
+    out.append({"kind": "sites", "mode": "next", "layout": {"foreach": {}, "flow": {"n": 2}}, "set": {"p": dict(e0["p"], count=3)}})
     # the interval guard (fix 66ecebf): 0 and negative values are recipe errors, not hangs
     for iv in (0, -1):
         out.append({"kind": "recipe", "mode": "next", "n": 3, "set": ev("DAILY", {"k": "date", "ymd": [2024, 3, 1]}, interval=iv)})
@@ -1098,6 +1441,12 @@ def run(ctx, rep, findings):
         "of 2-3 entries - Schedule.Event(...) calls with the same keyword names and different values, "
         "mixed with plain dates (snowfakery_version 3; the older dialect rejects any formula containing "
         "a Schedule.Event call). "
+        "Lattice cases: sub-daily rules with intervals that may never meet byhour / byminute / bysecond "
+        "(dateutil's empty-rule rejections, error kinds compared on flat schedules). "
+        "Call-site recipes: one Event text inside a macro included by 2-4 templates (top level, friend, "
+        "nested child; macro optionally in an include_file), twice on one line in flow style, and under "
+        "a for_each plus a field; every call site must produce, row by row, the occurrences of its own "
+        "recurrence from start_date. Starts with fractional seconds (8 % of datetime starts). "
         "Non-trivial: the plugin produced >= 2 values. Distinct = distinct case hash."
     )
     cases = [f["input"] for f in findings if f.get("input")]
@@ -1111,6 +1460,10 @@ def run(ctx, rep, findings):
         cases.append(gen_case(ctx.rng, "recipe"))
     for _ in range(ctx.scale(150, 1500, search_factor=2)):
         cases.append(gen_formula_case(ctx.rng))
+    for _ in range(ctx.scale(120, 1200, search_factor=2)):
+        cases.append(gen_lattice_case(ctx.rng))
+    for _ in range(ctx.scale(160, 1500, search_factor=2)):
+        cases.append(gen_sites_case(ctx.rng))
     for i in range(0, len(cases), 600):
         check_cases(cases[i : i + 600], rep)
         if ctx.time_left() < 60:
